@@ -3,6 +3,8 @@ package decorator
 import (
 	"bytes"
 	"errors"
+	"go/format"
+	"go/token"
 	"os"
 	"strconv"
 
@@ -17,7 +19,15 @@ func vfPrintOf(k int, f *dst.File, names map[string]string) string {
 	c := 0
 	r := NewRestorerWithImports(vfLocal, vfResolver{names: names, failAt: -1, calls: &c})
 	buf := &bytes.Buffer{}
-	r.Fprint(buf, dst.Clone(f).(*dst.File))
+	af, err := r.RestoreFile(dst.Clone(f).(*dst.File))
+	if err != nil {
+		return "restore error: " + err.Error()
+	}
+	// the reference is gofmt's own formatting of the restored ast (go/format), not whatever the
+	// library's print helpers currently call
+	if err := format.Node(buf, r.Fset, af); err != nil {
+		return "format error: " + err.Error()
+	}
 	return buf.String()
 }
 
@@ -95,4 +105,58 @@ func VerifC20Save() {
 			vfAssert(errors.Is(err, injected), "failure-wraps-cause")
 		}
 	}
+}
+
+// VerifC20Disk: the public SaveWithResolver on packages whose files went through the real pipeline
+// (positioned ast registered under its path in a FileSet - optionally carrying a //line directive -
+// decorated by the real DecorateFile, which records the file names), against a file system that
+// already holds longer old contents. Afterwards each path holds exactly that file's print, and no
+// other file exists.
+func VerifC20Disk() {
+	root := vfFSRoot()
+	names := vfNames()
+	nfiles := 1 + vfChoice("nfiles", 2)
+	fset := token.NewFileSet()
+	d := NewDecoratorWithImports(fset, vfLocal, vfIdentResolver{failAt: -1, calls: new(int), pkgs: map[string]string{"a": "a", "b": "x.y/b"}})
+	p := &Package{Package: &packages.Package{PkgPath: vfLocal}, Decorator: d}
+	var paths, prints []string
+	for i := 0; i < nfiles; i++ {
+		path := root + "/f" + strconv.Itoa(i) + ".go"
+		// two used imports in an unsorted block: gofmt (format.Node) sorts them when printing
+		specs := []dst.Spec{
+			&dst.ImportSpec{Path: &dst.BasicLit{Kind: token.STRING, Value: "\"x.y/b\""}},
+			&dst.ImportSpec{Path: &dst.BasicLit{Kind: token.STRING, Value: "\"a\""}},
+		}
+		df := vfFileWith(specs, []*dst.Ident{{Name: "local" + strconv.Itoa(i)}})
+		df.Decls = append(df.Decls, &dst.GenDecl{Tok: token.VAR, Specs: []dst.Spec{&dst.ValueSpec{Names: []*dst.Ident{{Name: "_"}, {Name: "_"}}, Values: []dst.Expr{
+			&dst.SelectorExpr{X: &dst.Ident{Name: "b"}, Sel: &dst.Ident{Name: "B"}}, &dst.SelectorExpr{X: &dst.Ident{Name: "a"}, Sel: &dst.Ident{Name: "A"}}}}}})
+		fr := (&Restorer{Map: newMap(), Fset: fset}).FileRestorer()
+		fr.Name = path
+		af, err := fr.RestoreFile(df)
+		vfAssert(err == nil, "setup-restore-ok")
+		if vfChoice("linedirective"+strconv.Itoa(i), 2) == 1 {
+			// what the parser records for a "//line gen.y:1" comment at the top of the file
+			fset.File(af.Package).AddLineInfo(0, root+"/gen.y", 1)
+		}
+		file, err := d.DecorateFile(af)
+		vfAssert(err == nil, "setup-decorate-ok")
+		if err != nil {
+			return
+		}
+		p.Syntax = append(p.Syntax, file)
+		paths = append(paths, path)
+		prints = append(prints, vfPrintOf(i, file, map[string]string{"a": "a", "x.y/b": "b", "c/d": "d"}))
+		vfFSPut(path, "// old contents of this file, much longer than what will be written now ........................................................................................................................\n")
+	}
+	calls := 0
+	names = map[string]string{"a": "a", "x.y/b": "b", "c/d": "d"}
+	err := p.SaveWithResolver(vfResolver{names: names, failAt: -1, calls: &calls})
+	vfAssert(err == nil, "save-ok")
+	vfReach("saved")
+	for i, path := range paths {
+		got, ok := vfFSGet(path)
+		vfAssert(ok, "file-exists-at-its-path")
+		vfAssert(got == prints[i], "file-holds-exactly-its-print")
+	}
+	vfAssert(vfFSCount() == nfiles, "nothing-else-written")
 }
